@@ -44,6 +44,10 @@ WSPECS = [
     {'pshape': [2, 3], 'vaxes': [0, 1, 1], 'default': 1.0},
     {'pshape': [2, 2], 'vaxes': [0, {'before': 1, 'term': 1, 'after': 0}], 'default': '-inf'},
     {'pshape': [2, 2], 'vaxes': [1, 0, {'before': 0, 'term': 1, 'after': 1}], 'default': 2.5},
+    # permutations of equal-size axes: the physical shape equals the virtual shape although the tensor is not stored in virtual order
+    {'pshape': [2, 2], 'vaxes': [1, 0]},
+    {'pshape': [2, 3, 2], 'vaxes': [2, 1, 0]},
+    {'pshape': [2, 2], 'expand': [2], 'vaxes': [2, 0, 1]},
 ]
 
 
